@@ -139,7 +139,7 @@ enum OpDef {
     Serde,
 }
 
-pub struct StackMachine<S: Spec, C: flatcontainer::impls::index::IndexContainer<Idx<S>> + 'static> {
+pub struct StackMachine<S: Spec, C: flatcontainer::impls::index::IndexContainer<Idx<S>> + IdxModel<Idx<S>> + 'static> {
     e: Entry<S>,
     caps: StackCaps<S, C>,
     oracle: StackOracle,
@@ -147,11 +147,16 @@ pub struct StackMachine<S: Spec, C: flatcontainer::impls::index::IndexContainer<
     ops: Vec<OpDef>,
     st: FS<S, C>,
     model: Vec<usize>,
+    /// reference storage model of the region and the model indices of the copies
+    m: S::M,
+    midx: Vec<MIdx>,
+    /// a merged coded region only accepts what its statistics cover (C06/C07) until it is cleared
+    coded_merged: bool,
     script: u8,
     tags: Vec<String>,
 }
 
-impl<S: Spec, C: flatcontainer::impls::index::IndexContainer<Idx<S>> + 'static> StackMachine<S, C> {
+impl<S: Spec, C: flatcontainer::impls::index::IndexContainer<Idx<S>> + IdxModel<Idx<S>> + 'static> StackMachine<S, C> {
     pub fn new(e: Entry<S>, caps: StackCaps<S, C>, oracle: StackOracle, n_values: usize, script: u8) -> Self {
         let mut values: Vec<S::V> = e.values.iter().take(n_values).cloned().collect();
         if oracle == StackOracle::Serde {
@@ -182,8 +187,7 @@ impl<S: Spec, C: flatcontainer::impls::index::IndexContainer<Idx<S>> + 'static> 
             ops.push(OpDef::CloneReplace);
             ops.push(OpDef::CloneFromReplace);
         }
-        // a merged coded region only accepts what its (here: empty) statistics cover: C06/C07
-        if (oracle == StackOracle::Presize || oracle == StackOracle::Sequence) && e.coded == Coded::No {
+        if oracle == StackOracle::Presize || oracle == StackOracle::Sequence {
             ops.push(OpDef::MergeCapacity(0));
             ops.push(OpDef::MergeCapacity(1));
             ops.push(OpDef::WithCapacity(3));
@@ -191,7 +195,7 @@ impl<S: Spec, C: flatcontainer::impls::index::IndexContainer<Idx<S>> + 'static> 
         if oracle == StackOracle::Serde && caps.ser.is_some() {
             ops.push(OpDef::Serde);
         }
-        StackMachine { e, caps, oracle, values, ops, st: Default::default(), model: vec![], script, tags: vec![] }
+        StackMachine { e, caps, oracle, values, ops, st: Default::default(), model: vec![], m: Default::default(), midx: vec![], coded_merged: false, script, tags: vec![] }
     }
 
     fn render(&self, s: &FS<S, C>) -> Option<String> {
@@ -283,12 +287,35 @@ impl<S: Spec, C: flatcontainer::impls::index::IndexContainer<Idx<S>> + 'static> 
                 }
             }
         }
-        if self.oracle == StackOracle::Space && self.e.has_heap {
+        if self.e.has_heap {
             let mut h = Vec::new();
             s.heap_size(|u, c| h.push((u, c)));
             for (u, c) in &h {
                 if u > c {
                     return Err(format!("heap_size reports used {u} > capacity {c}"));
+                }
+            }
+            if S::MODELLED {
+                // exact accounting: the region's storages (reference model) followed by the index container's
+                let mut want = Vec::new();
+                S::m_layout(&self.m, &mut want);
+                let dense_or_vec = self.caps.cname == "Vec<Index>" || self.midx.iter().all(|i| matches!(i, MIdx::Dense(_)));
+                let region_slots = want.len();
+                if dense_or_vec {
+                    C::slots(&self.midx, &mut want);
+                }
+                let used: Vec<usize> = h.iter().map(|x| x.0).collect();
+                let want_used: Vec<usize> = want.iter().map(|x| x.used).collect();
+                let expect_len = region_slots + self.caps.index_callbacks;
+                if used.len() != expect_len {
+                    return Err(format!(
+                        "FlatStack::heap_size makes {} callbacks; region storages {region_slots} + index container {} expected (reported {h:?})",
+                        used.len(),
+                        self.caps.index_callbacks
+                    ));
+                }
+                if dense_or_vec && used != want_used {
+                    return Err(format!("used bytes per storage {used:?} differ from the reference model {want_used:?} ({n} items)"));
                 }
             }
             if self.caps.expect_free_indices {
@@ -306,13 +333,16 @@ impl<S: Spec, C: flatcontainer::impls::index::IndexContainer<Idx<S>> + 'static> 
     }
 }
 
-impl<S: Spec, C: flatcontainer::impls::index::IndexContainer<Idx<S>> + 'static> Machine for StackMachine<S, C> {
+impl<S: Spec, C: flatcontainer::impls::index::IndexContainer<Idx<S>> + IdxModel<Idx<S>> + 'static> Machine for StackMachine<S, C> {
     fn name(&self) -> String {
         format!("stack/{:?}/FlatStack<{}, {}>/s{}", self.oracle, S::name(), self.caps.cname, self.script)
     }
     fn reset(&mut self) {
         self.st = Default::default();
         self.model.clear();
+        self.m = Default::default();
+        self.midx.clear();
+        self.coded_merged = false;
         self.tags.clear();
     }
     fn enabled(&self) -> Vec<OpId> {
@@ -336,14 +366,27 @@ impl<S: Spec, C: flatcontainer::impls::index::IndexContainer<Idx<S>> + 'static> 
     fn step(&mut self, op: OpId) -> Step {
         let what = self.describe(op);
         let zst = self.e.zst;
-        let refuse = |p: &String| zst && crate::engine::exhaustion(p);
+        let coded_merged = self.coded_merged;
+        let refuse = |p: &String| (zst && crate::engine::exhaustion(p)) || coded_merged;
+        let caps_before: Vec<usize> = if self.e.has_heap {
+            let mut v = Vec::new();
+            self.st.heap_size(|_, c| v.push(c));
+            v
+        } else {
+            vec![]
+        };
+        let is_clear = matches!(self.ops[op as usize], OpDef::Clear);
         match self.ops[op as usize].clone() {
             OpDef::CopyOwned(v) | OpDef::CopyRef(v) => {
                 let f = if matches!(self.ops[op as usize], OpDef::CopyOwned(_)) { self.caps.copy_owned.unwrap() } else { self.caps.copy_ref.unwrap() };
                 let val = self.values[v].clone();
                 let st = &mut self.st;
                 match guard(|| f(st, &val)) {
-                    Ok(()) => self.model.push(v),
+                    Ok(()) => {
+                        self.model.push(v);
+                        let i = S::m_push(&mut self.m, &val);
+                        self.midx.push(i);
+                    }
                     Err(p) if refuse(&p) => return Step::Refused(p),
                     Err(p) => return Step::Violation(format!("{what} panicked: {p}")),
                 }
@@ -353,8 +396,15 @@ impl<S: Spec, C: flatcontainer::impls::index::IndexContainer<Idx<S>> + 'static> 
                 let vals: Vec<S::V> = ids.iter().map(|i| self.values[*i].clone()).collect();
                 let f = self.caps.extend.unwrap();
                 let st = &mut self.st;
+                let vals2 = vals.clone();
                 match guard(|| f(st, vals)) {
-                    Ok(()) => self.model.extend(ids),
+                    Ok(()) => {
+                        self.model.extend(ids);
+                        for v in &vals2 {
+                            let i = S::m_push(&mut self.m, v);
+                            self.midx.push(i);
+                        }
+                    }
                     Err(p) if refuse(&p) => return Step::Refused(p),
                     Err(p) => return Step::Violation(format!("{what} panicked: {p}")),
                 }
@@ -379,6 +429,12 @@ impl<S: Spec, C: flatcontainer::impls::index::IndexContainer<Idx<S>> + 'static> 
                     }
                 }
                 self.st = built;
+                self.m = Default::default();
+                self.midx.clear();
+                for v in &vals {
+                    let i = S::m_push(&mut self.m, v);
+                    self.midx.push(i);
+                }
             }
             OpDef::Clear => {
                 let st = &mut self.st;
@@ -386,6 +442,9 @@ impl<S: Spec, C: flatcontainer::impls::index::IndexContainer<Idx<S>> + 'static> 
                     return Step::Violation(format!("clear() panicked: {p}"));
                 }
                 self.model.clear();
+                S::m_clear(&mut self.m);
+                self.midx.clear();
+                self.coded_merged = false;
             }
             OpDef::Reserve(n) => {
                 let st = &mut self.st;
@@ -427,6 +486,9 @@ impl<S: Spec, C: flatcontainer::impls::index::IndexContainer<Idx<S>> + 'static> 
                     Err(p) => return Step::Violation(format!("merge_capacity panicked: {p}")),
                 }
                 self.model.clear();
+                self.m = if k == 0 { S::m_merged(&[]) } else { S::m_merged(&[&self.m]) };
+                self.midx.clear();
+                self.coded_merged = self.e.coded != Coded::No;
             }
             OpDef::WithCapacity(n) => {
                 match guard(|| FS::<S, C>::with_capacity(n)) {
@@ -434,6 +496,9 @@ impl<S: Spec, C: flatcontainer::impls::index::IndexContainer<Idx<S>> + 'static> 
                     Err(p) => return Step::Violation(format!("with_capacity panicked: {p}")),
                 }
                 self.model.clear();
+                self.m = Default::default();
+                self.midx.clear();
+                self.coded_merged = false;
             }
             OpDef::Serde => {
                 let (ser, de) = (self.caps.ser.unwrap(), self.caps.de.unwrap());
@@ -453,6 +518,22 @@ impl<S: Spec, C: flatcontainer::impls::index::IndexContainer<Idx<S>> + 'static> 
                     }
                     Ok(Err(e)) => return Step::Violation(format!("serde round trip failed: {e}")),
                     Err(p) => return Step::Violation(format!("serde round trip panicked: {p}")),
+                }
+            }
+        }
+        if is_clear && self.e.has_heap {
+            let mut after = Vec::new();
+            self.st.heap_size(|_, c| after.push(c));
+            if after.len() < caps_before.len() {
+                return Step::Violation(format!(
+                    "after clear() heap_size makes {} callbacks instead of {}: a storage stopped contributing ({caps_before:?} -> {after:?})",
+                    after.len(),
+                    caps_before.len()
+                ));
+            }
+            if after.len() == caps_before.len() {
+                if let Some(i) = (0..after.len()).find(|i| after[*i] < caps_before[*i]) {
+                    return Step::Violation(format!("after clear() reported capacity #{i} shrank: {caps_before:?} -> {after:?}"));
                 }
             }
         }
